@@ -198,9 +198,26 @@ func FuncOfValue(v ssa.Value) *ssa.Function {
 
 // WithAnon returns fn and all functions lexically nested in it.
 func WithAnon(fn *ssa.Function) []*ssa.Function {
+	out := withAnonRaw(fn)
+	// a looked-through helper's literals belong to the function its body is read in
+	if TransparentOn {
+		for _, h := range regionFuncs(fn) {
+			if h == fn {
+				continue
+			}
+			for _, a := range h.AnonFuncs {
+				out = append(out, WithAnon(a)...)
+			}
+		}
+	}
+	return out
+}
+
+// withAnonRaw: fn and its literals, nothing looked through (used by the indexes the look-through itself consults).
+func withAnonRaw(fn *ssa.Function) []*ssa.Function {
 	out := []*ssa.Function{fn}
 	for _, a := range fn.AnonFuncs {
-		out = append(out, WithAnon(a)...)
+		out = append(out, withAnonRaw(a)...)
 	}
 	return out
 }
@@ -747,7 +764,7 @@ func sameBlockStore(load *ssa.UnOp, cell *ssa.Alloc) *ssa.Store {
 // RetNil reports whether result k of return r is nil on every path reaching it
 // (looking through the defer spill).
 func RetNil(r *ssa.Return, k int) bool {
-	return k < len(r.Results) && AllOrigins(r.Results[k], IsNilConst)
+	return k < len(r.Results) && (AllOrigins(r.Results[k], IsNilConst) || KnownNilAt(r.Parent(), r, r.Results[k]))
 }
 
 // ---------------------------------------------------------------------------
@@ -846,13 +863,13 @@ func pkgFuncs(pkg *ssa.Package) []*ssa.Function {
 	for _, mem := range pkg.Members {
 		switch m := mem.(type) {
 		case *ssa.Function:
-			fns = append(fns, WithAnon(m)...)
+			fns = append(fns, withAnonRaw(m)...)
 		case *ssa.Type:
 			if n, ok := m.Type().(*types.Named); ok {
 				// declared methods, also of generic types (their bodies are analysed once, uninstantiated)
 				for i := 0; i < n.NumMethods(); i++ {
 					if f := pkg.Prog.FuncValue(n.Method(i).Origin()); f != nil && f.Pkg == pkg && f.Synthetic == "" && len(f.Blocks) > 0 {
-						fns = append(fns, WithAnon(f)...)
+						fns = append(fns, withAnonRaw(f)...)
 					}
 				}
 			}
